@@ -920,7 +920,6 @@ func checkC20(w *World, r *Report) {
 	ruleLoopVarCapture(w, r, "C20.LOOPVAR")
 }
 
-
 func fieldIndex(st *types.Struct, name string) int {
 	for i := 0; i < st.NumFields(); i++ {
 		if st.Field(i).Name() == name {
